@@ -3,7 +3,8 @@
    Model: coq/C10/TextOut.v (the MIR_output functions), coq/C10/TextScan.v (scan_number, scan_string, scan_token,
    MIR_scan_string), coq/C10/FloatFmt.v (libc printf/strtod oracles). *)
 From Coq Require Import List ZArith NArith.
-From MirV Require Import Base.W64 C11.Ast C11.BinIO C11.BinIOProofs C10.TextOut C10.TextScan C10.TextProofs C10.LexProofs.
+From MirV Require Import Base.W64 C11.Ast C11.BinIO C11.BinIOProofs C10.TextOut C10.TextScan C10.TextProofs C10.LexProofs
+  C10.TextTokens C10.ParseProofs C10.PrintNormProofs.
 Import ListNotations.
 Local Open Scope Z_scope.
 
@@ -45,6 +46,31 @@ Theorem text_token_roundtrip : forall pF pD pLD rest f,
         scan_token pF pD pLD (S f) (output_str s ++ rest) = Some (TStr (nul_terminate s), rest)).
 Proof. exact text_token_roundtrip_lemma. Qed.
 Print Assumptions text_token_roundtrip.
+
+(* The statement parser of MIR_scan_string inverts the printer on the token level, for whole contexts:
+   on the token sequence [tk_ctx ms] that MIR_output's text consists of (TextTokens.v: one function per
+   printer function; checked against the lexer by computation in the examples and by the
+   correspondence run), the scan loop started in a fresh context returns the modules themselves up
+   to [tnorm_module] (an unsigned immediate becomes the INT with the same bits, an index-less memory
+   operand gets scale 1, a non-block argument size 0, a non-empty string operand a final NUL).
+   [wf_text_tokens]: names resolve the way they were meant (registers of the function, declared items,
+   labels exactly at the label positions of the insn class), types/immediates are representable, and
+   labels are numbered in order of first occurrence per context ([canon_labels], the numbering
+   MIR_scan_string itself produces).  Covers every item kind, func/proto signatures with block
+   arguments and "...", local/global lines, label lines (also ending a function), lref items before
+   and after their function, module-scoped label tables over several modules. *)
+Theorem text_statement_roundtrip : forall ms, wf_text_tokens ms ->
+  scan_loop (S (S (length (tk_ctx ms ++ [TEOF])))) sinit (tk_ctx ms ++ [TEOF]) = Ok (map tnorm_module ms).
+Proof. exact scan_loop_tk_ctx. Qed.
+Print Assumptions text_statement_roundtrip.
+
+(* ... and that normal form prints to the same text (second half of the fixpoint property), for
+   modules whose UINT immediates are below 2^63 and whose string operands are empty or NUL-terminated
+   - the complement of known findings 1 and 2. *)
+Theorem text_print_tnorm : forall fF fD fLD ms, text_stable ms ->
+  p_ctx fF fD fLD (map tnorm_module ms) = p_ctx fF fD fLD ms.
+Proof. exact p_ctx_tnorm. Qed.
+Print Assumptions text_print_tnorm.
 
 (* the text does not show what a binary read normalises: C11's "prints to the same text" *)
 Theorem text_print_norm : forall fF fD fLD ms, p_ctx fF fD fLD (map norm_module ms) = p_ctx fF fD fLD ms.
